@@ -253,8 +253,18 @@ class PathToken(TokenT):
     source: str = field(repr=False)
 
     def __str__(self) -> str:
+        from .unescape import quote_string
+        from .unescape import unescape
+
         it = iter(self.path)
-        buf = [str(next(it))]
+        root = next(it)
+        if isinstance(root, PathToken):
+            buf = [f"[{root}]"]
+        elif isinstance(root, str) and not RE_PROPERTY.fullmatch(root):
+            # Segments hold the text between quotes, escape sequences included.
+            buf = [f"[{quote_string(unescape(root, self))}]"]
+        else:
+            buf = [str(root)]
         for segment in it:
             if isinstance(segment, PathToken):
                 buf.append(f"[{segment}]")
@@ -262,7 +272,7 @@ class PathToken(TokenT):
                 if RE_PROPERTY.fullmatch(segment):
                     buf.append(f".{segment}")
                 else:
-                    buf.append(f"[{segment!r}]")
+                    buf.append(f"[{quote_string(unescape(segment, self))}]")
             else:
                 buf.append(f"[{segment}]")
         return "".join(buf)
